@@ -1358,6 +1358,7 @@ static void c12_done(Run &run, Req &r) {
     // already been answered definitively - then this is the next candidate, which happens to have drawn the same id
     int prev = last_tx_of[{t.qname_lc, (int)t.msg.id}];
     bool answered = false;
+    if (encodable(t.qname_lc) == 1)   // (an over-long name gets no well-formed answer from the reference server)
     for (int rid : W.txs[(size_t)prev].resp_ids) {
       const Resp &rs = W.resps[(size_t)rid];
       if (rs.tainted || rs.forged || rs.tc || (rs.rcode != 0 && rs.rcode != 3) || rs.read_seqs.empty() || rs.read_seqs[0] >= t.seq) continue;
